@@ -36,6 +36,19 @@ func variants() []Variant {
 		Quick:    6, Thorough: 7,
 	})
 
+	// governance registers an ERC20 contract for an IBC asset under a symbol that is new, taken, or differs from a
+	// taken one only in its case
+	vs = append(vs, Variant{
+		Name:     "identity-erc20-registration",
+		Issues:   []IssueSpec{{"tka", "uta", 0, 2, 3, true}, {"tkaa", "utaa", 0, 0, 2, false}},
+		IssueBy:  []string{"A"},
+		EditName: true,
+		Mints:    []MintSpec{{"1", "self"}},
+		Transfer: true,
+		Deploy:   true,
+		Quick:    4, Thorough: 5,
+	})
+
 	// a token that came with the genesis and names no owner: every owner-only message on it, by anybody, must fail
 	vs = append(vs, Variant{
 		Name:         "ownerless-genesis-token",
